@@ -698,9 +698,104 @@ func manyHandlers() {
 	vrt.Quiesce()
 }
 
+// replaceDuringDispatch: while the peer's frames for service 1 are dispatched, the
+// handler selecting service 1 is removed and a handler selecting service 2 is
+// registered (it takes the freed slot). No handler ever receives a frame its own
+// filter did not select, the one-shot flavour of the new handler is not closed by a
+// verdict given for its predecessor (seed C10-20 evaluated the filters on a snapshot
+// outside the lock and delivered by slot index).
+func replaceDuringDispatch() {
+	ca, cb := vnet.NewPair("a", "b")
+	a := net.NewEndPoint(ca)
+	b := net.NewEndPoint(cb)
+	frameType = net.Post
+	oneShot := vrt.ChooseFree(2, "first handler is one-shot") == 1
+	vrt.Explore()
+	q1 := make(chan *net.Message, 8)
+	q2 := make(chan *net.Message, 8)
+	closed2 := 0
+	taken := 0
+	id1 := b.MakeHandler(func(h *net.Header) (bool, bool) {
+		if h.Service != 1 {
+			return false, true
+		}
+		taken++
+		return true, !oneShot
+	}, q1, nil)
+	id2 := -1
+	w := vrt.GoWorker("replacer", func() {
+		b.RemoveHandler(id1)
+		id2 = b.MakeHandler(func(h *net.Header) (bool, bool) { return h.Service == 2, true }, q2, func(error) { closed2++ })
+	})
+	ws := vrt.GoWorker("sender", func() {
+		for k := 0; k < 2; k++ {
+			id := uint32(100 + k)
+			a.Send(net.NewMessage(hdr(net.Post, 1, 9, uint32(k+50), id), payload(id, sizes[(1+k)%len(sizes)])))
+		}
+	})
+	vrt.Quiesce()
+	for _, t := range []*vrt.Thread{w, ws} {
+		if !t.Done() {
+			vrt.Failf("hang/"+t.Name, "blocked on %s", t.BlockedOn())
+			return
+		}
+	}
+	if id2 == id1 {
+		vrt.Flag("slot-reused")
+	}
+	// the new handler is alive: a frame of service 2 reaches it, and nothing else ever did
+	if closed2 != 0 {
+		vrt.Failf("replaced/new-handler-closed", "the handler registered during the dispatch was closed %d time(s) although neither the endpoint nor the handler was closed", closed2)
+	}
+	a.Send(net.NewMessage(hdr(net.Post, 2, 9, 50, 200), payload(200, sizes[2%len(sizes)])))
+	vrt.Quiesce()
+	var got2 []uint32
+	for len(q2) > 0 {
+		m, ok := <-q2
+		if !ok {
+			break
+		}
+		got2 = append(got2, m.Header.ID)
+		if m.Header.Service != 2 {
+			vrt.Failf("replaced/frame-not-selected", "the handler selecting service 2 received frame %d of service %d, which its filter never selected", m.Header.ID, m.Header.Service)
+		}
+		if !intact(m) {
+			vrt.Failf("corrupt/replaced", "damaged frame: header %+v, %d payload bytes", m.Header, len(m.Payload))
+		}
+	}
+	if closed2 == 0 && fmt.Sprint(got2) != "[200]" && len(got2) <= 1 {
+		vrt.Failf("replaced/new-handler-misses-frames", "the handler selecting service 2 received %v of [200]", got2)
+	}
+	var got1 []uint32
+	for len(q1) > 0 {
+		m, ok := <-q1
+		if !ok {
+			break
+		}
+		got1 = append(got1, m.Header.ID)
+		if m.Header.Service != 1 || !intact(m) {
+			vrt.Failf("corrupt/replaced", "first handler: frame %+v", m.Header)
+		}
+	}
+	for i, id := range got1 {
+		if id != uint32(100+i) {
+			vrt.Failf("replaced/order", "the first handler received %v: not a prefix of [100 101]", got1)
+		}
+	}
+	if len(got1) > 0 {
+		vrt.Flag("delivered-before-removal")
+	}
+	vrt.Observe("oneShot=%v got1=%v got2=%v reused=%v", oneShot, got1, got2, id2 == id1)
+	a.Close()
+	b.Close()
+	vrt.Quiesce()
+}
+
 func init() {
 	reg.Register(&reg.Scenario{Property: "C10", Name: "two-senders-one-frame-exhaustive", Body: light, Quick: 2, Thorough: 99,
 		Doc: "2 senders x 1 frame, one handler, no draining thread: the whole interleaving tree", MustFlag: []string{"sender-overtaken"}})
+	reg.Register(&reg.Scenario{Property: "C10", Name: "replace-handler-during-dispatch", Body: replaceDuringDispatch, Quick: 2, Thorough: 4,
+		Doc: "RemoveHandler(h1) + MakeHandler(h2) (h2 takes the slot of h1) || two frames selected by h1 only: a handler only ever receives what its own filter selected, and is never closed by a verdict given for another handler", MustFlag: []string{"slot-reused", "delivered-before-removal"}})
 	reg.Register(&reg.Scenario{Property: "C10", Name: "concurrent-registration", Body: registration, Quick: 2, Thorough: 99,
 		Doc: "two goroutines call MakeHandler on one endpoint at the same time; then two frames arrive: both handlers get both"})
 	reg.Register(&reg.Scenario{Property: "C10", Name: "finalizer-frames-waiting", Body: finalizer, Quick: 2, Thorough: 99,
